@@ -8,6 +8,7 @@ import SymfcModel.Lemmas.OrbitClosed
 import SymfcModel.Lemmas.Col0
 import SymfcModel.Lemmas.Order3
 import SymfcModel.Lemmas.Components
+import SymfcModel.Lemmas.Pipeline
 namespace Symfc.C01
 open Symfc
 
@@ -175,5 +176,20 @@ theorem labels_decide_components (c : Cell) (hwf : c.wf = true) (n : Nat) (hn : 
   · exact C01_order2 c hwf cut hcut nBatch ptr' h a b
   · exact C01_order3 c hwf cut hcut nBatch ptr' h a b
   · exact (C01_order4 c hwf cut hcut nBatch ptr' h).1 a b
+
+/-- C01, linear-algebra end: `c_pt` is the normalised indicator matrix of the component labelling. If the label classes
+    are exactly the orbits of a family of permutations (here: index permutations combined with lattice translations,
+    by `C01_order{2,3,4}` + `rows_are_whole_orbits`) and unlabelled (eliminated) elements stay unlabelled, then the
+    range of `c_pt` is exactly the set of vectors that vanish on eliminated elements and are invariant under every
+    one of those permutations — every basis vector, being in that range, is invariant under all index permutations. -/
+theorem range_of_c_pt_is_the_invariant_subspace {K : Type*} [Field K] {n k G : Type*} [Fintype n] [Fintype k]
+    [DecidableEq k] (label : n → Option k) (w : k → K)
+    (hcount : ∀ j, (w j) ^ 2 * ((Finset.univ.filter (fun i => label i = some j)).card : K) = 1)
+    (g : G → Equiv.Perm n)
+    (horbit : ∀ i j, label i ≠ none → (label i = label j ↔ ∃ s : G, g s i = j))
+    (hnone : ∀ s i, label i = none → label (g s i) = none) (x : n → K) :
+    (∃ z : k → K, x = (Matrix.of (fun i j => if label i = some j then w j else 0)).mulVec z) ↔
+      ((∀ i, label i = none → x i = 0) ∧ (∀ s i, x (g s i) = x i)) :=
+  Pipeline.indicator_range_invariant label w hcount g horbit hnone x
 
 end Symfc.C01
